@@ -455,4 +455,9 @@ EXPLANATION = (
     'and dominance of the 253 check. C02.GUARD (decided): the 8966-byte gate as a decision table. Not decided: equality with a strict '
     'RFC 1035 parser [X] (the layout part is C01.LAYOUT) and the numeric work budget [X].'
 )
+EXPLANATION_ADDENDUM = (
+    ' C02.LABELDOM (decided): label-type domain of the decoder (1..63 label, 64..191 rejected, 192..255 pointer) and the NSEC window / block-length bytes admit every legal value. C02.STATELESS (necessary): nothing reachable from the decoder mutates a module-level container.'
+)
+EXPLANATION = EXPLANATION + EXPLANATION_ADDENDUM
+
 RULES = [total, depth, loops, namelen, guard, labeldom, stateless]
